@@ -204,6 +204,52 @@ PROPS = {
                    'which the VC generator does not model.',
         level_note='Depth bound and universes are stated in coverage.bounded.bound.',
     ),
+    'C01': dict(
+        level='other', contracts=['C02'], frames=[],
+        technique='bounded run-time contract check: RadiRouter.resolve / Ombott.__call__ against an independent rule-by-rule spec matcher '
+                  'over enumerated rule lists and paths; proved side obligations on RadiRouter.resolve (result assembly)',
+        explanation='BOUNDED: ordered rule lists (singletons of a 4641-rule universe, pairs, prefix-sharing families, random lists) x all short '
+                    'paths over an 8-letter alphabet incl. CR; see coverage.bounded. Proved: resolve assembles its result from the lookup result as specified.',
+        level_text='Bounded contract check of the real router (never counted as proved): the radix tree (RadiDict.get/_set/_split/remove) rewrites '
+                   'nested lists in place and consults compiled regular expressions; the VC generator does not model that.',
+        level_note='Bounds are stated in coverage.bounded.bound. Two known findings (names of a second rule on a shared pattern; int filter digit limit).',
+    ),
+    'C06': dict(
+        level='other', contracts=['body_read'], frames=[],
+        technique='bounded run-time contract check of compositionality: MultipartMarkup.parse fed with every division of small-scope byte strings '
+                  'and of generated well-formed bodies (and their prefixes) must equal the one-piece parse; VC: _body_read feeds every part in order',
+        explanation='BOUNDED small-scope exhaustive splits; proved: _body_read hands each part to markup.parse in order (markup_fed_in_order).',
+        level_text='Bounded contract check (never counted as proved) plus the proved feeding obligation of _body_read.',
+        level_note='Bounds are stated in coverage.bounded.bound.',
+    ),
+    'C07': dict(
+        level='other', contracts=[], frames=[],
+        technique='bounded run-time contract check: encode (independent RFC 7578 encoder) -> POST through Ombott.__call__ -> compare forms/files',
+        explanation='BOUNDED field lists, names, contents, boundaries, thresholds and framings; see coverage.bounded.',
+        level_text='Bounded contract check (never counted as proved).',
+        level_note='Bounds are stated in coverage.bounded.bound.',
+    ),
+    'C12': dict(
+        level='other', contracts=['C05', 'body_read'], frames=[],
+        technique='bounded run-time contract check of grammar-mutated bodies through Ombott.__call__ (status class, delivered fields complete); '
+                  'proved exception frames of _iter_chunked and _body_read',
+        explanation='BOUNDED grammar mutations, truncations, byte mutations, small-scope bodies; proved: _iter_chunked raises only BodyParsingError, '
+                    '_body_read only BodySizeError/BodyParsingError, all loops of the chunked reader terminate.',
+        level_text='Bounded contract check (never counted as proved) plus proved exception frames/termination of the readers.',
+        level_note='Bounds are stated in coverage.bounded.bound.',
+    ),
+    'C19': dict(
+        level='proof', contracts=['C19'], frames=[],
+        technique='deductive: loop-invariant VC from the real AST of Route.url (result == pattern with the m-th marker replaced by the formatted '
+                  'm-th parameter; slice bookkeeping); bounded re-match through the real router as replay harness',
+        explanation='Route.url returns exactly the specified string: literal characters verbatim and in order, every marker replaced by the '
+                    'formatted value of the right (named or positional) parameter.',
+        level_text='Proof of the substitution clause (literal parts verbatim and in order, right parameter per marker) for all patterns. '
+                   'That the built path is matched again with equal values depends on the real filters and is decided bounded only; '
+                   'three known findings there (path filter before a literal, float repr with exponent, empty filtered capture).',
+        level_note='Filter callables are opaque; Route representation invariant (one params entry per marker) assumed; re-match clause bounded.',
+        trusted_base=['Route representation invariant established by parse_rule'],
+    ),
 }
 
 NOT_APPLICABLE = {}
